@@ -339,36 +339,40 @@ def check_rolloff(res):
     for roll, ppc, fmax, (tm, stype, ic) in itertools.product(("linear", "lanczos", "fft", "prefilter", "none", "callable"), (4, 12), (10.0, 30.0, 60.0),
                                                              (("primary", "absacce", "zero"), ("total", "relvelo", "shift"), ("residual", "pvelo", "shift"),
                                                               ("residual", "absacce", "zero"))):
-        freq = np.array([fmax / 3, fmax])
-        rollfunc = {"linear": srs.linroll, "lanczos": srs.lanroll, "fft": srs.fftroll, "prefilter": srs.preroll, "none": None,
-                    "callable": srs.linroll}[roll]
-        rarg = srs.linroll if roll == "callable" else roll
-        kw = dict(time=tm, stype=stype, ic=ic)
-        with warnings.catch_warnings():
-            warnings.simplefilter("ignore")
-            sh, resp = srs.srs(sig.copy(), SR, freq, 10, rolloff=rarg, ppc=ppc, getresp=True, parallel="no", **kw)
-            trig = (SR / fmax < ppc) and rollfunc is not None
-            # the ic shift is applied before the roll-off: feed the equivalent pre-processed signal
-            s0 = sig.copy()
-            base = s0 - s0[0] if ic == "shift" else s0  # the shift is applied before the roll-off
-            if roll == "prefilter" or trig:
-                s2, sr2 = rollfunc(base, SR, ppc, fmax)
-            else:
-                s2, sr2 = base, SR
-            sh2, resp2 = srs.srs(s2, sr2, freq, 10, rolloff="none", getresp=True, parallel="no", **dict(kw, ic="zero"))
-        res.ev("rolloff/%s/ppc%d/f%g/%s/%s" % (roll, ppc, fmax, "trig" if trig else "notrig", tm))
-        tolr = 0.0
-        if resp["sr"] != sr2:
-            msgs.append("rolloff=%s ppc=%d fmax=%g time=%s: resp['sr']=%s, documented %s" % (roll, ppc, fmax, tm, resp["sr"], sr2))
-        elif not (sh.shape == sh2.shape and resp["hist"].shape == resp2["hist"].shape and np.array_equal(resp["t"], resp2["t"])
-                  and np.abs(sh - sh2).max() <= tolr * max(np.abs(sh2).max(), 1e-300)
-                  and np.abs(resp["hist"] - resp2["hist"]).max() <= tolr * max(np.abs(resp2["hist"]).max(), 1e-300)):
-            msgs.append("rolloff=%s ppc=%d fmax=%g time=%s stype=%s ic=%s: srs(sig, rolloff) != srs(rolled sig, rolloff='none') (window or history differs)"
-                        % (roll, ppc, fmax, tm, stype, ic))
-        if trig and roll in ("linear", "lanczos", "fft", "callable"):
-            fac = int(math.ceil(ppc / (SR / fmax)))
-            if sr2 != SR * fac:
-                msgs.append("rolloff=%s: sample rate multiplied by %g, expected factor %d" % (roll, sr2 / SR, fac))
+      for forder in ("asc", "desc", "max-in-the-middle"):
+          # the frequency that decides the resampling is the LARGEST one, wherever it sits in the vector
+          freq = {"asc": np.array([fmax / 3, fmax]), "desc": np.array([fmax, fmax / 3]), "max-in-the-middle": np.array([fmax / 3, fmax, fmax / 2])}[forder]
+          if forder != "asc" and (tm, stype) != ("primary", "absacce") and (tm, stype) != ("total", "relvelo"):
+              continue
+          rollfunc = {"linear": srs.linroll, "lanczos": srs.lanroll, "fft": srs.fftroll, "prefilter": srs.preroll, "none": None,
+                      "callable": srs.linroll}[roll]
+          rarg = srs.linroll if roll == "callable" else roll
+          kw = dict(time=tm, stype=stype, ic=ic)
+          with warnings.catch_warnings():
+              warnings.simplefilter("ignore")
+              sh, resp = srs.srs(sig.copy(), SR, freq, 10, rolloff=rarg, ppc=ppc, getresp=True, parallel="no", **kw)
+              trig = (SR / fmax < ppc) and rollfunc is not None
+              # the ic shift is applied before the roll-off: feed the equivalent pre-processed signal
+              s0 = sig.copy()
+              base = s0 - s0[0] if ic == "shift" else s0  # the shift is applied before the roll-off
+              if roll == "prefilter" or trig:
+                  s2, sr2 = rollfunc(base, SR, ppc, fmax)
+              else:
+                  s2, sr2 = base, SR
+              sh2, resp2 = srs.srs(s2, sr2, freq, 10, rolloff="none", getresp=True, parallel="no", **dict(kw, ic="zero"))
+          res.ev("rolloff/%s/ppc%d/f%g/%s/%s/%s" % (roll, ppc, fmax, "trig" if trig else "notrig", tm, forder))
+          tolr = 0.0
+          if resp["sr"] != sr2:
+              msgs.append("rolloff=%s ppc=%d freq=%s time=%s: resp['sr']=%s, documented %s (the largest frequency decides)" % (roll, ppc, freq.tolist(), tm, resp["sr"], sr2))
+          elif not (sh.shape == sh2.shape and resp["hist"].shape == resp2["hist"].shape and np.array_equal(resp["t"], resp2["t"])
+                    and np.abs(sh - sh2).max() <= tolr * max(np.abs(sh2).max(), 1e-300)
+                    and np.abs(resp["hist"] - resp2["hist"]).max() <= tolr * max(np.abs(resp2["hist"]).max(), 1e-300)):
+              msgs.append("rolloff=%s ppc=%d fmax=%g time=%s stype=%s ic=%s: srs(sig, rolloff) != srs(rolled sig, rolloff='none') (window or history differs)"
+                          % (roll, ppc, fmax, tm, stype, ic))
+          if trig and roll in ("linear", "lanczos", "fft", "callable"):
+              fac = int(math.ceil(ppc / (SR / fmax)))
+              if sr2 != SR * fac:
+                  msgs.append("rolloff=%s: sample rate multiplied by %g, expected factor %d" % (roll, sr2 / SR, fac))
     return msgs
 
 
